@@ -14,7 +14,7 @@ C07 checker.  One real node per case; query objects are numbered in creation ord
   `close <obj>`                          hook `VerifCloseQuery` = body of the timer closure → `ok`
   `sleep`                                wait until every `short` timer has fired → `ok`
   `race <rounds>`                        free-running: per round a fresh query; one goroutine delivers acks/responses
-        of distinct senders (hooked `handleQueryResponse`, every 8th through `NotifyMsg`), another calls the public
+        of distinct senders (through `Delegate.NotifyMsg`), another calls the public
         `QueryResponse.Close()` at a varying moment → `ok` | `panic:<msg>` | `dup:<what>`
   `drain <obj>`                          read what is in `AckCh()` / `ResponseCh()` without blocking
         → `a=<from,…> r=<from:tag,…> closed=<a><r>` (`-` = nothing; closed digits: the channel reported closed;
